@@ -123,6 +123,38 @@ func (o *c04) State(c *core.Ctx) {
 		}
 	}
 
+	// 1b. other spellings of a stored hash (upper case; leading zeros stripped): a route may refuse
+	// them or treat them as the hash they spell - it must not answer anything else
+	spell := func(h string) []string {
+		var out []string
+		if u := strings.ToUpper(h); u != h {
+			out = append(out, u)
+		}
+		if z := strings.TrimLeft(h, "0"); z != h && z != "" {
+			out = append(out, z)
+		}
+		return out
+	}
+	refusedOrSame := func(kind, target, canonical string) {
+		r, rc := get(target), get(canonical)
+		var ej errJSON
+		is4xx := r.Code >= 400 && r.Code < 500 && r.JSON(&ej) && ej.Code != ""
+		rep.Outcome("spelling:" + map[bool]string{true: "refused", false: "accepted"}[is4xx])
+		if !is4xx && !(r.Code == rc.Code && string(r.Body) == string(rc.Body)) {
+			o.viol(c, kind, "GET "+target+": another spelling of a stored hash must be refused or answered like the stored hash", fmt.Sprintf("4xx, or %d %s", rc.Code, trunc(rc.Body)), fmt.Sprintf("%d %s", r.Code, trunc(r.Body)))
+		}
+	}
+	for _, m := range t.Order {
+		for _, v := range spell(m.Hash) {
+			refusedOrSame("spelling.byhash", "/api/v1/chain/header/"+v, "/api/v1/chain/header/"+m.Hash)
+			refusedOrSame("spelling.bystate", "/api/v1/chain/header/state/"+v, "/api/v1/chain/header/state/"+m.Hash)
+			for _, other := range t.Order {
+				refusedOrSame("spelling.ancestors", "/api/v1/chain/header/"+v+"/"+other.Hash+"/ancestor", "/api/v1/chain/header/"+m.Hash+"/"+other.Hash+"/ancestor")
+				refusedOrSame("spelling.ancestors", "/api/v1/chain/header/"+other.Hash+"/"+v+"/ancestor", "/api/v1/chain/header/"+other.Hash+"/"+m.Hash+"/ancestor")
+			}
+		}
+	}
+
 	// 2. by height windows
 	counts := []string{"", "0", "1", "2", fmt.Sprint(maxH + 2)}
 	for h := int32(-1); h <= maxH+1; h++ {
